@@ -339,6 +339,79 @@ def operator_chains(res, rng, n_seq, max_n):
             res.violation("C07:chain-wrong-edges", f"after chain {case}: missing {sorted(want - got)}, extra {sorted(got - want)}", case)
 
 
+def unusual_holders(res, rng, n_seq):
+    """The same requests when (1) the caller kept only the MODULES (the project object is reachable through them alone),
+    (2) the project is a copy.deepcopy of another one (requests inside the copy; the original must not notice),
+    (3) the project has several hundred modules and the requests concern the high positions."""
+    import copy
+    import gc
+    import rv.api as api
+
+    def build(n):
+        p = api.Project()
+        return [p.output] + [p.new_module(api.m.Amplifier) for _ in range(n - 1)]
+
+    for s in range(n_seq):
+        kind = ("modules-only", "deepcopy", "large")[s % 3]
+        n = rng.randint(3, 6) if kind != "large" else rng.randint(300, 340)
+        mods = build(n)
+        gc.collect()
+        if any(m.parent is None or m.parent is not mods[0].parent for m in mods):
+            res.violation(f"C07:holder:{kind}:parent-lost", f"{kind}: modules of a project whose object the caller did not keep have lost their project", {"kind": kind, "n": n})
+            continue
+        original = None
+        if kind == "deepcopy":
+            original = mods[0].parent
+            for _ in range(rng.randint(0, 5)):
+                original.connect(rng.choice(mods), rng.choice(mods))
+            p = copy.deepcopy(original)
+            mods = list(p.modules)
+            before_original = (state_of(original), original.read())
+        else:
+            p = None
+        want = set(monitors.edge_multiset(mods[0].parent if p is None else p))
+        history = []
+        res.count("unusual_holder_sequences")
+        res.hist("unusual_holders", kind)
+        pool = list(range(n)) if kind != "large" else list(range(257, n)) + [0, 1, 5]
+        ok = True
+        for k in range(rng.randint(2, 12)):
+            f, t = rng.choice(pool), rng.choice(pool)
+            dis = rng.random() < 0.3
+            rep = rng.choice((1, 1, 2, 3))          # the same request several times in a row
+            for _ in range(rep):
+                history.append([f, t, dis])
+                try:
+                    if rng.random() < 0.5:
+                        mods[f] >> (~mods[t] if dis else mods[t])
+                    else:
+                        (mods[t] << (~mods[f] if dis else mods[f])) if not dis else mods[f].parent.connect(mods[f], ~mods[t])
+                except Exception as e:
+                    res.violation(f"C07:holder:{kind}:request-raised:{type(e).__name__}", f"{kind}: request {history[-1]} raised {e!r} (history {history[-6:]})", {"kind": kind, "n": n, "history": history})
+                    ok = False
+                    break
+                res.count("ops_applied")
+            if not ok:
+                break
+            want.discard((f, t)) if dis else want.add((f, t))
+            proj = mods[0].parent
+            if proj is None or any(m.parent is not proj for m in (mods[f], mods[t])):
+                res.violation(f"C07:holder:{kind}:parent-lost", f"{kind}: modules no longer share their project after {history[-3:]}", {"kind": kind, "history": history})
+                ok = False
+                break
+            got_list = monitors.edge_multiset(proj)
+            res.count("consistency_evaluations")
+            probs = monitors.links_consistent(proj)
+            if probs or set(got_list) != want or len(got_list) != len(set(got_list)):
+                res.violation(f"C07:holder:{kind}:{'inconsistent-tables' if probs else 'wrong-edges'}",
+                              f"{kind} (n={n}): after {history[-4:]}: {probs[:2] if probs else sorted(set(got_list) ^ want)[:6]} (duplicates: {len(got_list) - len(set(got_list))})",
+                              {"kind": kind, "n": n, "history": history})
+                ok = False
+                break
+        if ok and original is not None and (state_of(original), original.read()) != before_original:
+            res.violation("C07:holder:deepcopy:original-changed", f"requests made inside a deep copy changed the project it was copied from (history {history[-6:]})", {"kind": kind, "history": history})
+
+
 def mixed_sequences(res, rng, n_seq, max_len):
     """Link requests interleaved with the other things a project lives through: new modules (appended or filling an empty
     position), empty positions, saving (object kept), saving + loading (continue on the loaded project).  Modules are
@@ -485,6 +558,7 @@ def run_shard(spec_, res):
         bfs(res, spec_["n"], spec_["depth"], tuple(spec_["slice"]), rng, spec_.get("sample_last"))
     elif spec_["part"] == "mixed":
         mixed_sequences(res, rng, spec_["n_seq"], spec_["max_len"])
+        unusual_holders(res, rng, max(9, spec_["n_seq"] // 40))
     else:
         random_sequences(res, rng, spec_["n_seq"], spec_["max_n"], spec_["max_len"])
         operator_chains(res, rng, spec_["n_seq"] // 3, spec_["max_n"])
